@@ -316,17 +316,18 @@ Definition limits_form_result (form : N) (s : bytes) : option (option Z * option
 
 (* ---- client-visible status of the handlers that read the body ---- *)
 Inductive consumer := ProxyStream | ProxyBuffered | Fastcgi.
-(* what the body's consumer makes of the error its reads ended with: proxy.ServeHTTP compares the
-   RoundTrip error with ErrMaxBytesExceeded by identity (==): net/http hands the body error back
-   unchanged for a chunked upload, but wrapped in a *net.OpError ("readfrom") when the request has
-   a Content-Length; with several upstreams and try_duration the body is buffered first and any
+(* what the body's consumer makes of the error its reads ended with: proxy.ServeHTTP recognises
+   ErrMaxBytesExceeded in the RoundTrip error with errors.Is (casket bdcc677; before, by ==), so
+   however net/http hands the body error back (unchanged for a chunked upload, wrapped in a
+   *net.OpError ("readfrom") when the request has a Content-Length) the answer is 413;
+   with several upstreams and try_duration the body is buffered first and any
    read error answers 400; fastcgi's client ignores the error of io.Copy(stdin, body) and relays
    whatever the responder says (200 here) *)
 Definition consumer_status (k : consumer) (cl_framed : bool) (e : option rerr) (backend_status : Z) : Z :=
   match e with
   | Some TooLarge =>
     match k with
-    | ProxyStream => if cl_framed then 502 else 413
+    | ProxyStream => 413
     | ProxyBuffered => 400
     | Fastcgi => backend_status
     end
